@@ -220,10 +220,7 @@ Theorem C16_getter_setter_roundtrip : forall f m, 0 <= m < 256 ->
   /\ forall i, (i < 8)%nat ->
        mem_string (nth i doc_names ""%string) (KV.Model.FlagsSel.keep_names flag_names f m)
        = Z.testbit m (match f with KV.Model.FlagsSel.FV2 => 7 - Z.of_nat i | _ => Z.of_nat i end).
-Proof.
-  intros f m H. split; [exact (KV.Proofs.FlagsSelP.roundtrip f m H)|].
-  intros i Hi. exact (KV.Proofs.FlagsSelP.getter_spec f m i H Hi).
-Qed.
+Proof. exact KV.Proofs.FlagsSelP.getter_setter_roundtrip. Qed.
 Print Assumptions C16_getter_setter_roundtrip.
 
 (* ONE data set of any format, the faithful model of select() (self._selection, setter, getter, guarded setter):
